@@ -219,8 +219,52 @@ def case_history(ctx, inp):
             ctx.branch("weak-entry-cleared")
         if any(op[0] == "new" and op[1] == "falsy" for op in inp["ops"]):
             ctx.branch("falsy-token")
+        if _first_died_then_new_copy(inp["ops"]):
+            ctx.branch("first-instance-dead-copies-alive-then-new-copy")
     finally:
         rp.cleanup()
+
+
+def _first_died_then_new_copy(ops):
+    """does the history contain: the FIRST instance of some token dies while another instance with that token is alive,
+    and later a further instance with that token is created (copy / loads / explicit token)?"""
+    tokens, alive, slots = [], [], []
+    first = {}            # token -> id of the first instance currently registered for it (None once it died while copies live)
+    armed = set()         # tokens whose first instance died while a copy was alive
+    nu = 0
+    for op in ops:
+        k = op[0]
+        t = None
+        if k == "new":
+            if op[1] is None or op[1] == "falsy":
+                t = ("u", nu)
+                nu += 1
+            else:
+                t = ("e", op[1])
+        elif k == "copy":
+            t = tokens[op[1]]
+        elif k == "loads":
+            t = slots[op[1]]
+        elif k == "dumps":
+            slots.append(tokens[op[1]])
+        elif k == "drop":
+            i = op[1]
+            alive[i] = False
+            ti = tokens[i]
+            if first.get(ti) == i:
+                if any(a and tokens[j] == ti for j, a in enumerate(alive)):
+                    armed.add(ti)
+                first.pop(ti)
+        if t is not None:
+            if t in armed and any(a and tokens[j] == t for j, a in enumerate(alive)):
+                return True
+            tokens.append(t)
+            alive.append(True)
+            if not any(a and tokens[j] == t for j, a in enumerate(alive[:-1])):
+                armed.discard(t)
+                first[t] = len(tokens) - 1
+            first.setdefault(t, len(tokens) - 1)
+    return False
 
 
 def case_contend(ctx, inp):
@@ -382,6 +426,41 @@ def _gen_ops(rng, n, allow_acquire=True):
     return ops
 
 
+def _exhaustive_histories(maxlen=5):
+    """every valid history of <= maxlen steps over one explicit token and one default lock: constructions, copies,
+    dumps/loads, deaths, collections (no acquire: the final partition by shared lock is what is compared)"""
+    alphabet = [["new", 1], ["new", None], ["copy", 0, "pickle"], ["copy", 1, "copy"], ["copy", 2, "pickle"],
+                ["dumps", 0], ["dumps", 1], ["loads", 0], ["loads", 1], ["drop", 0], ["drop", 1], ["drop", 2], ["gccollect"]]
+
+    def valid(ops):
+        alive, nslots = [], 0
+        for op in ops:
+            k = op[0]
+            if k in ("copy", "dumps", "drop"):
+                if op[1] >= len(alive) or not alive[op[1]]:
+                    return False
+            if k == "loads" and op[1] >= nslots:
+                return False
+            if k in ("new", "copy", "loads"):
+                alive.append(True)
+            elif k == "dumps":
+                nslots += 1
+            elif k == "drop":
+                alive[op[1]] = False
+        return True
+
+    def rec(prefix):
+        if prefix:
+            yield "history", {"ops": [list(o) for o in prefix]}
+        if len(prefix) == maxlen:
+            return
+        for op in alphabet:
+            nxt = prefix + [op]
+            if valid(nxt) and not (op[0] == "gccollect" and prefix and prefix[-1][0] == "gccollect"):
+                yield from rec(nxt)
+    yield from rec([])
+
+
 def generate(ctx):
     from props._stores_util import ensure_budget
     ensure_budget(ctx, quick_scale=1.5)
@@ -392,8 +471,22 @@ def generate(ctx):
     yield "history", {"ops": [["new", None], ["new", None], ["acquire", 0], ["acquire", 1], ["release", 0], ["release", 1]]}
     yield "history", {"ops": [["new", 1], ["dumps", 0], ["drop", 0], ["gccollect"], ["loads", 0], ["loads", 0], ["new", 1]]}
     yield "history", {"ops": [["new", "falsy"], ["new", "falsy"], ["copy", 1, "deepcopy"]]}
+    # the first instance registered for a token dies, copies survive, then a further copy appears (pickle of the dead
+    # original, pickle of a survivor, explicit token again, copy of a survivor) — with and without a collection between
+    for late in (["loads", 0], ["copy", 1, "pickle"], ["new", 3], ["copy", 1, "deepcopy"]):
+        for gc_between in (False, True):
+            for tok in (3, None):
+                if late[0] == "new" and tok is None:
+                    continue
+                ops = [["new", tok], ["dumps", 0], ["copy", 0, "pickle"], ["drop", 0]] + ([["gccollect"]] if gc_between else [])
+                ops += [late, ["acquire", 1], ["acquire", 2], ["release", 1]]
+                yield "history", {"ops": ops}
+    yield "history", {"ops": [["new", 2], ["copy", 0, "copy"], ["copy", 1, "pickle"], ["drop", 0], ["drop", 1], ["gccollect"],
+                              ["copy", 2, "pickle"], ["new", 2], ["acquire", 2], ["acquire", 3], ["acquire", 4], ["release", 2]]}
     for _ in range(ctx.n(600, 8000)):
         yield "history", {"ops": _gen_ops(rng, rng.randint(2, 14))}
+    if ctx.thorough():
+        yield from _exhaustive_histories()
     for _ in range(ctx.n(60, 600)):
         yield "contend", {"ops": _gen_ops(rng, rng.randint(3, 10), allow_acquire=False), "holder": rng.randint(0, 20),
                           "max_others": 3}
